@@ -4,7 +4,7 @@
     Everything is over R: exact arithmetic; the rounding clause of the property is measured, not proved. *)
 From Coq Require Import Reals List Lia Lra.
 From Coquelicot Require Import Coquelicot.
-From EQ Require Import lib.Num lib.NpList model.M_sdof gen.Gen_sdof_coeffs model.M_sdof_R proofs.P_C01.
+From EQ Require Import lib.Num lib.NpList model.M_sdof gen.Gen_sdof_coeffs model.M_sdof_R proofs.P_C01 proofs.P_C01_glue.
 Import ListNotations.
 Local Open Scope R_scope.
 
@@ -62,10 +62,45 @@ Theorem C01_rows_without_leading_zero : forall (cfs : list (coeffs R)) c2pi xi p
   response_with cfs c2pi xi ps rec = map2 (fun c P => row c xi (w_of c2pi P) rec) cfs ps.
 Proof. exact P_C01.no_leading_zero_response. Qed.
 
-(** non-vacuity, for every length n: the ramp record a_i = c i dt has an exact solution in the sense of [solves]
-    (the globally smooth closed form), so C01_series_exact applies to it and pins every sample of the series.
-    NOT proved: existence of such (u, v) for an arbitrary record (gluing the per-step closed forms into one
-    differentiable function); the theorem above is stated for whatever solution exists. *)
+(** EXISTENCE (by gluing): for every record (any length, also the empty one) there IS an exact solution in the sense of
+    [solves]. The witness is explicit: [glued_u]/[glued_v] use, at time t, the closed form of the step that contains t
+    ([idx]: the smallest j with t <= (j+1) dt, capped at the last step), started from the model's own state at the left
+    sample. It is differentiable at EVERY real t, two-sided, also at the sample instants (state and load are continuous
+    there, so the left and right derivatives agree: P_C01_glue.glue_derive), with the piecewise-linear record load
+    [pwload] (the first/last segment extended linearly outside [0, (n-1) dt]). *)
+Theorem C01_glued_solution_global : forall xi w dt, 0 < w -> 0 <= xi -> xi < 1 -> 0 < dt -> forall (rec : list R) t,
+  is_derive (glued_u xi w dt rec) t (glued_v xi w dt rec t) /\
+  is_derive (glued_v xi w dt rec) t
+    (pwload rec dt t - 2 * xi * w * glued_v xi w dt rec t - w ^ 2 * glued_u xi w dt rec t).
+Proof. exact P_C01_glue.glued_deriv. Qed.
+(** [pwload] is continuous and is segment i of the record on the closed step i *)
+Theorem C01_pwload_spec : forall dt, 0 < dt -> forall (rec : list R),
+  (forall t, continuous (pwload rec dt) t) /\
+  (forall i t, (S i < length rec)%nat -> INR i * dt <= t <= INR (S i) * dt -> pwload rec dt t = load rec dt i t).
+Proof. intros dt Hdt rec. split; [apply P_C01_glue.pwload_cont | apply P_C01_glue.pwload_on_step]; exact Hdt. Qed.
+
+Theorem C01_solution_exists : forall xi w dt, 0 < w -> 0 <= xi -> xi < 1 -> 0 < dt -> forall (rec : list R),
+  exists u v : R -> R, solves xi w dt rec u v.
+Proof. exact P_C01_glue.solution_exists. Qed.
+
+(** ... and it is unique on [0, (n-1) dt] (every solution is the per-step closed form started from the model's state) *)
+Theorem C01_solution_unique : forall xi w dt, 0 < w -> 0 <= xi -> xi < 1 -> 0 < dt -> forall (rec : list R) (u1 v1 u2 v2 : R -> R),
+  solves xi w dt rec u1 v1 -> solves xi w dt rec u2 v2 ->
+  forall t, 0 <= t <= INR (length rec - 1) * dt -> u1 t = u2 t /\ v1 t = v2 t.
+Proof. exact P_C01_glue.solution_unique. Qed.
+
+(** COROLLARY (the property as stated, with no hypothesis left on the solution): the exact solution exists and the
+    series is its sampling at every sample instant *)
+Theorem C01_series_is_the_solution : forall xi w dt, 0 < w -> 0 <= xi -> xi < 1 -> 0 < dt -> forall (rec : list R),
+  exists u v : R -> R, solves xi w dt rec u v /\
+    forall i, (i < length rec)%nat ->
+      nth i (nj_series (nj_coeffs xi w dt) rec) (0, 0) = (u (INR i * dt), v (INR i * dt)).
+Proof. exact P_C01_glue.series_is_the_solution. Qed.
+
+(** non-vacuity on a closed-form family, for every length n: the ramp record a_i = c i dt is solved by the globally
+    smooth closed form, and C01_series_exact pins every sample of the series to it.
+    (Existence of (u, v) for an ARBITRARY record, formerly listed here as not proved, is C01_solution_exists above.
+    Still NOT proved: anything about floating-point rounding — all of this is exact real arithmetic.) *)
 Example C01_nonvacuous_ramp : forall xi w dt, 0 < w -> 0 <= xi -> xi < 1 -> 0 < dt -> forall cr n i, (i < n)%nat ->
   solves xi w dt (map (fun i => cr * (INR i * dt)) (seq 0 n)) (usol xi w 0 0 0 cr) (vsol xi w 0 0 0 cr) /\
   nth i (nj_series (nj_coeffs xi w dt) (map (fun i => cr * (INR i * dt)) (seq 0 n))) (0, 0)
